@@ -19,6 +19,9 @@ var (
 func stack() []byte { return debug.Stack() }
 
 // World is one worker's interpreter instance: its own globals/heap, term table and solver.
+// maxPathSteps bounds the SSA instructions one path may execute (typical paths: 10^4..10^6).
+const maxPathSteps = 20_000_000
+
 type World struct {
 	prog          *ssa.Program
 	globals       map[*ssa.Global]*value
@@ -35,6 +38,7 @@ type World struct {
 	run   *Run
 	depth int
 	steps int64
+	pathSteps0 int64 // value of steps when the current path started (see maxPathSteps)
 	funcs map[*ssa.Function]int // functions entered (evidence)
 
 	sched *sched
